@@ -11,7 +11,7 @@ Two INDEPENDENT halves:
   function comes from `Generated/Sb31Consts.lean`, which is re-extracted from the current source on each
   run.  Tied to /repo by the byte-for-byte correspondence of harness/props/C05.py.
 
-* `SpsdkVerif.Sb31.Rom` (second half): a ROM-side loader written from the FORMAT DESCRIPTION only
+* `SpsdkVerif.Sb31.Rom` (second half, now in Spec/Sb31Rom.lean): a ROM-side loader written from the FORMAT DESCRIPTION only
   (hand-written constants, forward hash-chain walk, per-block KDF + CBC decryption, section header,
   command parser, certificate block v2.1 walk).  It never refers to the first half or to `Generated`.
   SPSDK has no SB3.1 parser, so this loader (compiled) is the property's oracle on SPSDK's bytes, and
@@ -28,31 +28,13 @@ import SpsdkVerif.Base.Py
 import SpsdkVerif.Model.Misc
 import SpsdkVerif.Crypto.Modes
 import SpsdkVerif.Generated.Sb31Consts
+import SpsdkVerif.Spec.Sb31Rom
 
 namespace SpsdkVerif.Sb31
 open SpsdkVerif SpsdkVerif.Misc SpsdkVerif.Crypto
 open SpsdkVerif.Generated
 
-abbrev Bytes := SpsdkVerif.Misc.Bytes
-
-/-! ## Commands (spsdk/sbfile/sb31/commands.py) -/
-
-inductive Cmd where
-  | erase (addr len memId : Nat)
-  | load (addr : Nat) (data : Bytes) (memId : Nat)
-  | execute (addr : Nat)
-  | call (addr : Nat)
-  | progFuses (addr : Nat) (data : Bytes)
-  | progIfr (addr : Nat) (data : Bytes)
-  | loadCmac (addr : Nat) (data : Bytes) (memId : Nat)
-  | copy (addr len dst memFrom memTo : Nat)
-  | loadHashLocking (addr : Nat) (data : Bytes) (memId : Nat)
-  | loadKeyBlob (offset : Nat) (data : Bytes) (keyWrapId : Nat)
-  | configureMemory (addr memId : Nat)
-  | fillMemory (addr len pattern : Nat)
-  | fwVersionCheck (value counterId : Nat)
-  | reset
-  deriving DecidableEq, Repr, Inhabited
+/-! ## Commands (spsdk/sbfile/sb31/commands.py); the type `Cmd` is shared with the loader: Spec/Sb31Rom.lean -/
 
 def u16 (v : Nat) : Bytes := leEnc 2 v
 def u32 (v : Nat) : Bytes := leEnc 4 v
@@ -223,18 +205,6 @@ def buildChain (c : CryptoOps) (s : ObjState) (start : Bytes) : Nat → List Byt
     let full := fullBlock n r.1 (encPayload c s n b)
     (c.hash (hashAlgOf s.cfg.hashLen) full, full :: r.2)
 
-structure Header where
-  flags : Nat
-  blockCount : Nat
-  blockSize : Nat
-  timestamp : Nat
-  fwVersion : Nat
-  totalLength : Nat
-  imageType : Nat
-  certOffset : Nat
-  description : Bytes
-  deriving DecidableEq, Repr
-
 /-- `SecureBinary31Header.export` -/
 def encHeader (h : Header) : Bytes :=
   Sb31Consts.hdrMagic ++ u16 Sb31Consts.hdrVersionMinor ++ u16 Sb31Consts.hdrVersionMajor ++
@@ -281,346 +251,8 @@ def step (c : CryptoOps) (s : ObjState) : Op → ObjState
 
 def run (c : CryptoOps) (s : ObjState) (ops : List Op) : ObjState := ops.foldl (step c) s
 
-/-! # ROM side: written from the format description, independent of everything above -/
+/-! # ROM side: `Spec/Sb31Rom.lean` (namespace `Rom`), written from the format description, independent of everything above -/
 
-namespace Rom
-
-inductive RomErr where
-  | truncated | magic | version | blockSize | certOffset | imageType | blockCount | totalLength
-  | certMagic | certVersion | certSize | certCurve | certRootCount | certRootHash | certRotkh | certIsk | certTrailing
-  | iskSignature | curveMismatch | signature | fileLength
-  | blockHash (i : Nat) | blockNumber (i : Nat) | lastHashNotZero
-  | sectionHeader | sectionLength | padding | cmdMagic | cmdTag | cmdReserved | cmdPadding | fuel
-  deriving DecidableEq, Repr
-
-def RomErr.name : RomErr → String
-  | .truncated => "truncated" | .magic => "magic" | .version => "version" | .blockSize => "blockSize"
-  | .certOffset => "certOffset" | .imageType => "imageType" | .blockCount => "blockCount" | .totalLength => "totalLength"
-  | .certMagic => "certMagic" | .certVersion => "certVersion" | .certSize => "certSize" | .certCurve => "certCurve"
-  | .certRootCount => "certRootCount" | .certRootHash => "certRootHash" | .certRotkh => "certRotkh" | .certIsk => "certIsk"
-  | .certTrailing => "certTrailing" | .iskSignature => "iskSignature" | .curveMismatch => "curveMismatch"
-  | .signature => "signature" | .fileLength => "fileLength" | .blockHash i => s!"blockHash{i}"
-  | .blockNumber i => s!"blockNumber{i}" | .lastHashNotZero => "lastHashNotZero" | .sectionHeader => "sectionHeader"
-  | .sectionLength => "sectionLength" | .padding => "padding" | .cmdMagic => "cmdMagic" | .cmdTag => "cmdTag"
-  | .cmdReserved => "cmdReserved" | .cmdPadding => "cmdPadding" | .fuel => "fuel"
-
-abbrev R := Except RomErr
-
-def check (b : Bool) (e : RomErr) : R Unit := if b then .ok () else .error e
-
-/-- take `n` raw bytes -/
-def takeB (n : Nat) (b : Bytes) : R (Bytes × Bytes) :=
-  if n ≤ b.length then .ok (b.take n, b.drop n) else .error .truncated
-
-/-- take an `n`-byte little-endian unsigned integer -/
-def takeU (n : Nat) (b : Bytes) : R (Nat × Bytes) :=
-  if n ≤ b.length then .ok (leDec (b.take n), b.drop n) else .error .truncated
-
-def allZero (b : Bytes) : Bool := b.all (· == 0)
-
-/-- number of zero bytes that pad `n` bytes to a multiple of 16 -/
-def pad16 (n : Nat) : Nat := (16 - n % 16) % 16
-
-/-! ### commands: 16-byte header `55AAAA55 | word1 | word2 | tag`, then a tag-specific tail -/
-
-/-- `len` data bytes followed by zero padding to a 16-byte boundary -/
-def takeData (len : Nat) (b : Bytes) : R (Bytes × Bytes) := do
-  let (d, b) ← takeB len b
-  let (p, b) ← takeB (pad16 len) b
-  check (allZero p) .cmdPadding
-  pure (d, b)
-
-/-- one word followed by three reserved zero words -/
-def takeWordRes3 (b : Bytes) : R (Nat × Bytes) := do
-  let (w, b) ← takeU 4 b
-  let (r, b) ← takeB 12 b
-  check (allZero r) .cmdReserved
-  pure (w, b)
-
-def parseCmd (b : Bytes) : R (Cmd × Bytes) := do
-  let (magic, b) ← takeU 4 b
-  check (magic == 0x55AAAA55) .cmdMagic
-  let (w1, b) ← takeU 4 b
-  let (w2, b) ← takeU 4 b
-  let (tag, b) ← takeU 4 b
-  if tag == 1 then
-    let (m, b) ← takeWordRes3 b
-    pure (.erase w1 w2 m, b)
-  else if tag == 2 then
-    let (m, b) ← takeWordRes3 b
-    let (d, b) ← takeData w2 b
-    pure (.load w1 d m, b)
-  else if tag == 3 then
-    check (w2 == 0) .cmdReserved
-    pure (.execute w1, b)
-  else if tag == 4 then
-    check (w2 == 0) .cmdReserved
-    pure (.call w1, b)
-  else if tag == 5 then
-    -- PROGRAM_FUSES: the length counts 32-bit words
-    let (d, b) ← takeData (4 * w2) b
-    pure (.progFuses w1 d, b)
-  else if tag == 6 then
-    let (d, b) ← takeData w2 b
-    pure (.progIfr w1 d, b)
-  else if tag == 7 then
-    let (m, b) ← takeWordRes3 b
-    let (d, b) ← takeData w2 b
-    pure (.loadCmac w1 d m, b)
-  else if tag == 8 then
-    let (dst, b) ← takeU 4 b
-    let (mf, b) ← takeU 4 b
-    let (mt, b) ← takeU 4 b
-    let (r, b) ← takeU 4 b
-    check (r == 0) .cmdReserved
-    pure (.copy w1 w2 dst mf mt, b)
-  else if tag == 9 then
-    -- LOAD_HASH_LOCKING: a load followed by 64 reserved bytes (the device fills in the hash)
-    let (m, b) ← takeWordRes3 b
-    let (d, b) ← takeData w2 b
-    let (r, b) ← takeB 64 b
-    check (allZero r) .cmdReserved
-    pure (.loadHashLocking w1 d m, b)
-  else if tag == 10 then
-    -- LOAD_KEY_BLOB: word1 = 16-bit offset | 16-bit key wrap id << 16, word2 = length
-    let (d, b) ← takeData w2 b
-    pure (.loadKeyBlob (w1 % 65536) d (w1 / 65536), b)
-  else if tag == 11 then
-    -- CONFIGURE_MEMORY: word1 = memory id, word2 = address of the configuration
-    pure (.configureMemory w2 w1, b)
-  else if tag == 12 then
-    let (p, b) ← takeWordRes3 b
-    pure (.fillMemory w1 w2 p, b)
-  else if tag == 13 then
-    pure (.fwVersionCheck w1 w2, b)
-  else if tag == 14 then
-    check (w1 == 0 && w2 == 0) .cmdReserved
-    pure (.reset, b)
-  else throw .cmdTag
-
-def parseCmds : Nat → Bytes → R (List Cmd)
-  | 0, b => if b.isEmpty then pure [] else throw .fuel
-  | f + 1, b =>
-    if b.isEmpty then pure [] else do
-      let (cmd, rest) ← parseCmd b
-      let more ← parseCmds f rest
-      pure (cmd :: more)
-
-/-! ### key derivation: NIST SP 800-108 counter mode with CMAC, fixed input
-    `label(12, LE derivation constant) | context(12) | length(4, BE bits) | counter(4, BE)` where
-    context = 8 zero bytes | access rights << 6 | 0x01 (KDK) / 0x10 (block key) | 0 | 0x20 (128 bit) / 0x21 (256 bit) -/
-
-def kdfInput (const rights : Nat) (blockKey : Bool) (keyBits counter : Nat) : Bytes :=
-  leEnc 12 const ++ zeros 8 ++ [UInt8.ofNat (rights * 64), (if blockKey then 0x10 else 0x01), 0,
-    (if keyBits = 256 then 0x21 else 0x20)] ++ beEnc 4 keyBits ++ beEnc 4 counter
-
-def kdf (c : CryptoOps) (key : Bytes) (const rights : Nat) (blockKey : Bool) (keyBits : Nat) : Bytes :=
-  cmac c key (kdfInput const rights blockKey keyBits 1) ++
-  (if keyBits = 256 then cmac c key (kdfInput const rights blockKey keyBits 2) else [])
-
-/-! ### certificate block v2.1 -/
-
-structure CertInfo where
-  signPub : Bytes     -- public key (x ‖ y) that signs the container: the ISK if present, else the root key
-  coord : Nat         -- its coordinate length (32: P-256, 48: P-384)
-  deriving DecidableEq, Repr
-
-/-- a signature check the loader performs: `verify alg pub msg sig` -/
-structure SigOb where
-  coord : Nat
-  pub : Bytes
-  msg : Bytes
-  sig : Bytes
-  deriving DecidableEq, Repr
-
-def coordOfCurve (nibble : Nat) : R Nat :=
-  if nibble = 1 then pure 32 else if nibble = 2 then pure 48 else throw .certCurve
-
-def algOfCoord (coord : Nat) : HashAlg := if coord = 48 then .sha384 else .sha256
-
-/-- walk `chdr | minor | major | size | root key record | [ISK certificate]`; check the root key against the
-    root-of-trust hash `rotkh` fused in the device and the ISK certificate against the root key -/
-def romCert (c : CryptoOps) (rotkh : Bytes) (cert : Bytes) : R (CertInfo × List SigOb) := do
-  let (magic, b) ← takeB 4 cert
-  check (magic == [0x63, 0x68, 0x64, 0x72]) .certMagic
-  let (minor, b) ← takeU 2 b
-  let (major, b) ← takeU 2 b
-  check (major == 2 && minor == 1) .certVersion
-  let (size, b) ← takeU 4 b
-  check (size == cert.length) .certSize
-  -- root key record
-  let (flags, b) ← takeU 4 b
-  let coordR ← coordOfCurve (flags % 16)
-  let n := flags / 16 % 16
-  let used := flags / 256 % 16
-  let ca := flags / 2147483648 % 2 == 1
-  check (1 ≤ n && n ≤ 4 && used < n) .certRootCount
-  let algR := algOfCoord coordR
-  let (table, b) ← takeB (if n > 1 then n * coordR else 0) b
-  let (rootPub, b) ← takeB (2 * coordR) b
-  let keyHash := c.hash algR rootPub
-  if n > 1 then
-    check ((table.drop (used * coordR)).take coordR == keyHash) .certRootHash
-    check (c.hash algR table == rotkh) .certRotkh
-  else
-    check (keyHash == rotkh) .certRotkh
-  if ca then
-    check b.isEmpty .certTrailing
-    pure (⟨rootPub, coordR⟩, [])
-  else
-    let record := (cert.drop 12).take (4 + table.length + 2 * coordR)
-    let (sigOff, b1) ← takeU 4 b
-    let (_, b1) ← takeU 4 b1           -- constraints
-    let (iflags, b1) ← takeU 4 b1
-    let coordI ← coordOfCurve (iflags % 16)
-    check (12 + 2 * coordI ≤ sigOff) .certIsk
-    let (iskPub, b1) ← takeB (2 * coordI) b1
-    let (userData, b1) ← takeB (sigOff - 12 - 2 * coordI) b1
-    check ((iflags / 2147483648 % 2 == 1) == !userData.isEmpty) .certIsk
-    let (iskSig, b1) ← takeB (2 * coordR) b1
-    check b1.isEmpty .certTrailing
-    let msg := record ++ b.take sigOff
-    check (c.verify (.ecdsa algR) rootPub msg iskSig) .iskSignature
-    pure (⟨iskPub, coordI⟩, [⟨coordR, rootPub, msg, iskSig⟩])
-
-/-! ### the container -/
-
-/-- device-side configuration: part common key, KDK access rights, whether the command blocks are
-    encrypted (plain containers are a test mode), root-of-trust key hash -/
-structure Dev where
-  pck : Bytes
-  rights : Nat
-  encrypted : Bool
-  rotkh : Bytes
-  deriving Repr
-
-def parseHeader (b : Bytes) : R (Header × Bytes) := do
-  let (magic, b) ← takeB 4 b
-  check (magic == [0x73, 0x62, 0x76, 0x33]) .magic
-  let (minor, b) ← takeU 2 b
-  let (major, b) ← takeU 2 b
-  check (major == 3 && minor == 1) .version
-  let (flags, b) ← takeU 4 b
-  let (blockCount, b) ← takeU 4 b
-  let (blockSize, b) ← takeU 4 b
-  let (timestamp, b) ← takeU 8 b
-  let (fwVersion, b) ← takeU 4 b
-  let (totalLength, b) ← takeU 4 b
-  let (imageType, b) ← takeU 4 b
-  let (certOffset, b) ← takeU 4 b
-  let (description, b) ← takeB 16 b
-  pure (⟨flags, blockCount, blockSize, timestamp, fwVersion, totalLength, imageType, certOffset, description⟩, b)
-
-/-- follow the hash chain: block `i` must hash to `expected`, carries its number, the hash of block `i+1`
-    and 256 payload bytes; after the last block the carried hash must be all zero and nothing may follow -/
-def walk (c : CryptoOps) (alg : HashAlg) (hl : Nat) (dec : Nat → Bytes → Bytes) :
-    Nat → Nat → Bytes → Bytes → R Bytes
-  | 0, _, expected, rest => do
-    check (expected == zeros hl) .lastHashNotZero
-    check rest.isEmpty .fileLength
-    pure []
-  | k + 1, i, expected, rest => do
-    let (blk, rest) ← takeB (4 + hl + 256) rest
-    check (c.hash alg blk == expected) (.blockHash i)
-    let (num, b) ← takeU 4 blk
-    check (num == i) (.blockNumber i)
-    let (next, payload) ← takeB hl b
-    let more ← walk c alg hl dec k (i + 1) next rest
-    pure (dec i payload ++ more)
-
-structure RomOk where
-  hdr : Header
-  cmds : List Cmd
-  obligations : List SigOb
-  deriving DecidableEq, Repr
-
-/-- what block 0 (header | hash of block 1 | certificate block | signature) yields -/
-structure Block0 where
-  hdr : Header
-  hl : Nat            -- hash length = coordinate length of the signing key
-  h1 : Bytes          -- expected hash of data block 1
-  obs : List SigOb
-  rest : Bytes        -- the data blocks
-  deriving DecidableEq, Repr
-
-/-- block size = 4 (number) + hash length + 256 (payload); SHA-256 or SHA-384 -/
-def hashLenOfBlockSize (bs : Nat) : R Nat :=
-  if bs = 292 then pure 32 else if bs = 308 then pure 48 else throw .blockSize
-
-def parseBlock0 (c : CryptoOps) (rotkh : Bytes) (file : Bytes) : R Block0 := do
-  let (hdr, b) ← parseHeader file
-  let hl ← hashLenOfBlockSize hdr.blockSize
-  check (hdr.certOffset == 60 + hl) .certOffset
-  check (hdr.imageType == 6 || hdr.imageType == 7) .imageType
-  check (1 ≤ hdr.blockCount) .blockCount
-  -- block 0 = header | hash of block 1 | certificate block | signature ; its length is `totalLength`
-  let (h1, b) ← takeB hl b
-  check (60 + hl + 2 * hl ≤ hdr.totalLength) .totalLength
-  let signedLen := hdr.totalLength - 2 * hl
-  let (cert, b) ← takeB (signedLen - (60 + hl)) b
-  let (sig, b) ← takeB (2 * hl) b
-  let (ci, obs) ← romCert c rotkh cert
-  check (ci.coord == hl) .curveMismatch
-  let signed := file.take signedLen
-  check (c.verify (.ecdsa (algOfCoord hl)) ci.signPub signed sig) .signature
-  check (b.length == hdr.blockCount * hdr.blockSize) .fileLength
-  pure ⟨hdr, hl, h1, obs ++ [⟨hl, ci.signPub, signed, sig⟩], b⟩
-
-def keyBitsOf (hl : Nat) : Nat := if hl = 48 then 256 else 128
-
-/-- payload decryption of block `i`: AES-CBC, zero IV, key derived from the KDK and the block number -/
-def decFn (c : CryptoOps) (dev : Dev) (timestamp hl : Nat) : Nat → Bytes → Bytes :=
-  let kdk := kdf c dev.pck timestamp dev.rights false (keyBitsOf hl)
-  fun i p => if dev.encrypted then cbcDec c (kdf c kdk i dev.rights true (keyBitsOf hl)) (zeros 16) p else p
-
-/-- section header | commands | zero padding (less than one block) -/
-def parseStream (stream : Bytes) : R (List Cmd) := do
-  let (uid, s) ← takeU 4 stream
-  let (typ, s) ← takeU 4 s
-  let (len, s) ← takeU 4 s
-  let (res, s) ← takeU 4 s
-  check (uid == 1 && typ == 1 && res == 0) .sectionHeader
-  let (body, pad) ← takeB len s
-  check (allZero pad && pad.length < 256) .padding
-  parseCmds body.length body
-
-def romLoad (c : CryptoOps) (dev : Dev) (file : Bytes) : R RomOk := do
-  let b0 ← parseBlock0 c dev.rotkh file
-  let stream ← walk c (algOfCoord b0.hl) b0.hl (decFn c dev b0.hdr.timestamp b0.hl) b0.hdr.blockCount 1 b0.h1 b0.rest
-  let cmds ← parseStream stream
-  pure ⟨b0.hdr, cmds, b0.obs⟩
-
-/-- byte ranges `(start, length)` of the file that `romLoad` authenticates, in file order: the signed range,
-    the signature itself, then every data block (block 1 by the hash in the signed range, block i+1 by the
-    hash carried in block i) -/
-def coverage (hdr : Header) (hl : Nat) : List (Nat × Nat) :=
-  (0, hdr.totalLength - 2 * hl) :: (hdr.totalLength - 2 * hl, 2 * hl) ::
-  (List.range hdr.blockCount).map (fun i => (hdr.totalLength + i * hdr.blockSize, hdr.blockSize))
-
-/-- length of `n` bytes padded to a 16-byte boundary -/
-def a16 (n : Nat) : Nat := n + pad16 n
-
-/-- size of a command in the stream, from the format description -/
-def cmdSize : Cmd → Nat
-  | .erase .. => 32
-  | .load _ d _ => 32 + a16 d.length
-  | .execute _ => 16
-  | .call _ => 16
-  | .progFuses _ d => 16 + a16 d.length
-  | .progIfr _ d => 16 + a16 d.length
-  | .loadCmac _ d _ => 32 + a16 d.length
-  | .copy .. => 32
-  | .loadHashLocking _ d _ => 32 + a16 d.length + 64
-  | .loadKeyBlob _ d _ => 16 + a16 d.length
-  | .configureMemory .. => 16
-  | .fillMemory .. => 32
-  | .fwVersionCheck .. => 16
-  | .reset => 16
-
-/-- length of the plaintext stream: 16-byte section header + commands -/
-def streamLen (cmds : List Cmd) : Nat := 16 + (cmds.map cmdSize).sum
-
-end Rom
 
 /-! # Specification vocabulary (used by Proofs/Sb31.lean and Properties/C05.lean; Props only, nothing executable) -/
 
